@@ -647,7 +647,14 @@ func runC45(c *fw.Ctx) {
 						if cs.new != nil {
 							want = cs.new.mode + " " + blobID[cs.new.data]
 						}
-						if _, bad := failed[cs.path]; strictWhy == "" && (bad || listing[cs.path] != want) {
+						blobOf := func(e string) string {
+							if f := strings.Fields(e); len(f) == 2 {
+								return f[1]
+							}
+							return ""
+						}
+						// only a wrong CONTENT can be git's misplacement; a wrong mode is compared as usual
+						if _, bad := failed[cs.path]; strictWhy == "" && (bad || blobOf(listing[cs.path]) != blobOf(want)) {
 							outcome = "valid patch mis-applied by git apply --unidiff-zero (not compared)"
 							break
 						}
